@@ -86,7 +86,7 @@ CHECKS = {
     ),
     "C03": dict(
         technique="Lean 4 proof (chunk arithmetic, hand-over exit only truncates, append concatenates tables, split marks are transparent for the specification, composition mt = st under one lexical assumption) + differential run over every boundary alignment against the Lean model of the chunked parser",
-        text="The schedule quantifier collapses in the model (pure per-chunk parsers, ordered collect, sequential append). Lean theorems C03_chunks, C03_chunk_events_prefix, C03_append_table, C03_mt_load_is_store_run (a multi-threaded load that succeeds is Spec.runSegs — one encoder per chunk, appended in order — on the per-chunk operations) and C03_mt_loaded_signal (with the store refinement C04_store_refines_spec_all: each loaded signal is what the abstract specification denotes for those operations); C03_segs_time_table / C03_mt_time_table (the time table a multi-threaded load reports is the specification's table for the divided history: strictly increasing, every new maximum exactly once), C03_worker_reproduces_segment (a worker that resynchronised at a line emits a prefix of what the whole-body parser emits from there), C03_split_transparent (a history with split marks denotes what the same operations recorded by ONE thread denote) and "
+        text="The schedule quantifier collapses in the model (pure per-chunk parsers, ordered collect, sequential append). Lean theorems C03_chunks, C03_chunk_events_prefix, C03_append_table, C03_mt_load_is_store_run (a multi-threaded load that succeeds is Spec.runSegs — one encoder per chunk, appended in order — on the per-chunk operations) and C03_mt_loaded_signal (with the store refinement C04_store_refines_spec_all: each loaded signal is what the abstract specification denotes for those operations); C03_segs_time_table / C03_mt_time_table (the time table a multi-threaded load reports is the specification's table for the divided history: strictly increasing, every new maximum exactly once), C03_worker_reproduces_segment (a worker that resynchronised at a line emits a prefix of what the whole-body parser emits from there), C03_mt_eq_st_undivided (for bodies that are not divided - one worker or at most the minimal chunk size - the lexical assumption is proved and mt = st holds for every signal without assumption), C03_split_transparent (a history with split marks denotes what the same operations recorded by ONE thread denote) and "
              "C03_mt_eq_st_given_handover (if both loads succeed and the per-chunk operations, one after the other, are the whole body's operations — HandoverLexical, the one assumption — both loads report the same change list for every signal). "
              "The multi-threaded loader runs in scoped rayon pools of 2..16 threads with a hook overriding MIN_CHUNK_SIZE so that boundaries land on every byte alignment of small bodies "
              "(plus production chunking on larger ones); results are compared with the executable Lean model of the chunked parser and with the single-threaded load.",
